@@ -37,6 +37,8 @@ def build():
     s.x = cc.IntField()
     s.y = cc.IntField()
     s.fv = cc.IntField()
+    s.tags = cc.ListField(cc.StringField(required=True, transform_strip=True))       # required applies to what is stored: the stripped text
+    s.labels = cc.DictField(cc.StringField(), cc.StringField(required=True, transform_strip="-"))
     s.sub.enabled = cc.FeatureFlagField(default=True)
     s.sub.rl = cc.ListField(cc.IntField(), required=True)
     s.sub.rd = cc.DictField(required=True, default={"k": 1})
@@ -99,7 +101,7 @@ def fresh_sub():
 
 
 def fresh():
-    return {"flag": True, "rs": None, "ri": 5, "re": "", "x": None, "y": None, "fv": None, "sub": fresh_sub(), "items": None, "t": {"r": "t"}}
+    return {"flag": True, "rs": None, "ri": 5, "re": "", "x": None, "y": None, "fv": None, "sub": fresh_sub(), "items": None, "t": {"r": "t"}, "tags": None, "labels": None}
 
 
 REQUIRED = {"": ["rs", "ri", "re"], "sub": ["rl", "rd", "rle"], "sub.deep": ["r"], "t": ["r"], "item": ["r"]}
@@ -148,6 +150,12 @@ def apply_tree(state, tree):
             st["items"] = items
         elif k in ("rs", "ri", "re") and (v is None or v in EMPTY):
             rej.append(("", k, v))
+        elif k == "tags" and v is not None and any(x is None or not x.strip() for x in v):
+            rej.append(("", "tags", v))
+        elif k == "labels" and v is not None and any(x is None or not x.strip("-") for x in v.values()):
+            rej.append(("", "labels", v))
+        elif k in ("tags", "labels") and v is not None:
+            st[k] = [x.strip() for x in v] if k == "tags" else {a: b.strip("-") for a, b in v.items()}
         elif k == "fv" and v is not None and v % 2:
             rej.append(("", "fv", v))      # the field validator rejects the value when it is set
         else:
@@ -230,7 +238,7 @@ def read_state(cfg):
     items = None
     if cfg.items is not None:
         items = [{"r": it.r, "n": it.n} for it in cfg.items]
-    return {"flag": cfg.flag, "rs": cfg.rs, "ri": cfg.ri, "re": cfg.re, "x": cfg.x, "y": cfg.y, "fv": cfg.fv,
+    return {"tags": plain(cfg.tags), "labels": plain(cfg.labels), "flag": cfg.flag, "rs": cfg.rs, "ri": cfg.ri, "re": cfg.re, "x": cfg.x, "y": cfg.y, "fv": cfg.fv,
             "sub": {"enabled": cfg.sub.enabled, "rl": plain(cfg.sub.rl), "rd": plain(cfg.sub.rd), "rle": plain(cfg.sub.rle), "a": cfg.sub.a,
                     "deep": {"on": cfg.sub.deep.on, "r": cfg.sub.deep.r}},
             "items": items, "t": {"r": cfg.t.r}}
@@ -269,6 +277,9 @@ def side_inputs(tier):
         {"items": []},
         {"t": {"r": None}},
         {"items": [{"r": "", "n": 1}]},
+        {"tags": [" a ", "  "]},
+        {"tags": [" a "], "labels": {"k": "--"}},
+        {"tags": ["b"], "labels": {"k": "-v-"}},
     ]
     if tier == "thorough":
         base += [{"x": 2, "y": 2, "a": 10}, {"items": [bad_r]}, {"t": {}}, {"a": 11, "fv": 2}, {"items": [good, good, bad_n]}]
@@ -282,9 +293,9 @@ def make_tree(leaves, flags, side):
     for k in ("rs", "ri", "re"):
         if leaves[k] is not ABSENT:
             t[k] = leaves[k]
-    for k in ("x", "y", "fv"):
+    for k in ("x", "y", "fv", "tags", "labels"):
         if k in side:
-            t[k] = side[k]
+            t[k] = copy.deepcopy(side[k])
     sub = {}
     if flags[1] is not ABSENT:
         sub["enabled"] = flags[1]
